@@ -255,12 +255,13 @@ func stressors(full bool) []VerifyCase {
 		}
 		return len(main)
 	}
-	exactSizes := []int{65533, 65534, 65535, 65536, 65537, 65538}
+	exactSizes := []int{65533, 65534, 65535, 65536, 65537, 65538, 65550, 65600, 66000, 70000}
 	if full {
 		exactSizes = nil
 		for sz := 65520; sz <= 65550; sz++ {
 			exactSizes = append(exactSizes, sz)
 		}
+		exactSizes = append(exactSizes, 65600, 66000, 70000, 131071, 131072, 131073)
 	}
 	for ji, j := range jumping {
 		if ji >= 5 {
